@@ -51,6 +51,17 @@ type Term struct {
 
 func (t *Term) String() string { return t.name }
 
+// loggedAxiom: a global assertion and the terms whose names it mentions.
+type loggedAxiom struct {
+	text string
+	deps []*Term
+}
+
+func (c *TermCtx) addAxiom(text string, deps ...*Term) {
+	c.axioms = append(c.axioms, text)
+	c.axiomLog = append(c.axiomLog, loggedAxiom{text, deps})
+}
+
 type TermCtx struct {
 	terms   map[string]*Term
 	all     []*Term
@@ -58,6 +69,7 @@ type TermCtx struct {
 	vars    []*Term // declared variables in creation order
 	varByNm map[string]*Term
 	axioms  []string // global assertions not yet sent
+	axiomLog []loggedAxiom // every global assertion ever made, with the terms it mentions (fresh-solver retries)
 	flTerms []*Term  // applications of fl (E2 rounding)
 	anchors []*big.Rat
 	noEps   bool // E2 without the relative-error axiom (ordering/anchor reasoning only)
@@ -923,4 +935,101 @@ func (c *TermCtx) flAxioms(out *strings.Builder) {
 		}
 		c.flPairs = len(fls)
 	}
+}
+
+// freshScript renders a self-contained SMT-LIB2 script deciding the conjunction of lits: prelude,
+// the definitions of exactly the terms the literals depend on, the float/uninterpreted-function
+// axioms of those terms (all anchors, pairwise instances) and the logged global assertions whose
+// terms all occur. Used to retry a query the long-lived solver could not decide, in a fresh process
+// free of everything accumulated from other paths.
+func (c *TermCtx) freshScript(lits []*Term, wantModel []*Term) string {
+	var out strings.Builder
+	out.WriteString(smtPrelude)
+	seen := map[*Term]bool{}
+	var order []*Term
+	var visit func(t *Term)
+	visit = func(t *Term) {
+		if seen[t] {
+			return
+		}
+		seen[t] = true
+		for _, a := range t.args {
+			visit(a)
+		}
+		order = append(order, t)
+	}
+	for _, l := range lits {
+		visit(l)
+	}
+	for _, v := range wantModel {
+		visit(v)
+	}
+	// symbolic anchors are referenced by the fl axioms
+	for _, sa := range c.symAnchors {
+		if sa.sent {
+			visit(sa)
+		}
+	}
+	var anchored []*Term
+	for _, x := range order {
+		switch x.op {
+		case "var":
+			fmt.Fprintf(&out, "(declare-const %s %s)\n", x.name, x.sort)
+			if x.sort == SInt {
+				if x.lo != nil {
+					fmt.Fprintf(&out, "(assert (>= %s %s))\n", x.name, smtInt(x.lo))
+				}
+				if x.hi != nil {
+					fmt.Fprintf(&out, "(assert (<= %s %s))\n", x.name, smtInt(x.hi))
+				}
+			}
+		case "const":
+		default:
+			fmt.Fprintf(&out, "(define-fun %s () %s %s)\n", x.name, x.sort, x.expr())
+			if x.extra == "reg" {
+				anchored = append(anchored, x)
+			}
+		}
+	}
+	// instantiate the axioms for the anchored terms of this query only
+	sFl, sAnch, sSym, sPairs := c.flTerms, c.flAnchored, c.flSymAnch, c.flPairs
+	savedSent := map[*Term]bool{}
+	for _, x := range order {
+		savedSent[x] = x.sent
+		x.sent = true
+	}
+	c.flTerms, c.flAnchored, c.flSymAnch, c.flPairs = anchored, map[int]int{}, map[int]int{}, 0
+	c.flAxioms(&out)
+	c.flTerms, c.flAnchored, c.flSymAnch, c.flPairs = sFl, sAnch, sSym, sPairs
+	for x, v := range savedSent {
+		x.sent = v
+	}
+	for _, a := range c.axiomLog {
+		ok := true
+		for _, d := range a.deps {
+			if !seen[d] {
+				ok = false
+			}
+		}
+		if ok {
+			out.WriteString(a.text)
+			out.WriteByte('\n')
+		}
+	}
+	for _, l := range lits {
+		if l.isCon && l.bval {
+			continue
+		}
+		fmt.Fprintf(&out, "(assert %s)\n", l.name)
+	}
+	out.WriteString("(check-sat)\n")
+	if len(wantModel) > 0 {
+		out.WriteString("(get-value (")
+		for _, v := range wantModel {
+			out.WriteString(v.name)
+			out.WriteByte(' ')
+		}
+		out.WriteString("))\n")
+	}
+	return out.String()
 }
